@@ -17,7 +17,8 @@ TECHNIQUE = ("stateless enumeration of scripts x kernel answers (deviation bound
              "reactor dispatch code on a model kernel (SimKernel)")
 RULE = ("every script = [B writes 5 bytes first]? + <= 3 writes by A from {write 0/1/3/5/12 bytes, writeSequence(1,3), "
         "writeSequence(5,0,3)} x pacing {burst, one reactor iteration after each call, run to quiescence after each call} x closing "
-        "action {loseConnection, loseWriteConnection (peer closes when it sees EOF), abortConnection} by A or B x protocols "
+        "action {loseConnection, loseWriteConnection (peer closes when it sees EOF), abortConnection, loseWriteConnection then "
+        "loseConnection, loseConnection then loseWriteConnection (the pacing gap between the two calls)} by A or B x protocols "
         "{plain, IHalfCloseableProtocol on both sides} x A's transport {tcp.Server, tcp.Client with a recording connector} (B is a "
         "tcp.Server) x reactor {select, poll, epoll, asyncio}; kernel pipe of 4 bytes per direction, SEND_LIMIT=4, bufferSize=3; "
         "kernel answers: at every send() all that fits (default) or any smaller count >= 1; at every readiness report with two "
@@ -28,9 +29,11 @@ RULE = ("every script = [B writes 5 bytes first]? + <= 3 writes by A from {write
         "protocol logs) snapshots after a reactor iteration, transitions = reactor iterations executed on the real code")
 BOUNDS = {"quick": "scripts with <= 2 writes: <= 2 deviations (plain/server-server and half-closeable/client-server, no echo), <= 1 deviation "
                    "(all four protocol/transport kinds, with and without echo); scripts with exactly 3 writes (plain/server-server and "
-                   "half-closeable/client-server, no echo): <= 1 deviation",
+                   "half-closeable/client-server, no echo, burst and drain pacing): <= 1 deviation; two-step closes: <= 2 writes, all kinds, with and without echo at "
+                   "<= 1 deviation, by A without echo (those two kinds) at <= 2; exactly 3 writes, by A, at <= 1 deviation",
           "thorough": "all scripts with <= 3 writes, four protocol/transport kinds, with and without echo: <= 2 deviations; scripts with <= 2 "
-                      "writes (plain/server-server and half-closeable/client-server, no echo): <= 3 deviations"}
+                      "writes (plain/server-server and half-closeable/client-server, no echo): <= 3 deviations; two-step closes: <= 2 writes at "
+                      "<= 2 deviations, exactly 3 writes at <= 1 deviation (all kinds, with and without echo)"}
 ASSUMPTIONS = [
     "trusted base = SimKernel (checks/_c15_kernel.py): Linux tcp_poll readiness masks, one 4-byte pipe per direction standing "
     "for send queue + receive queue, FIN/RST semantics (close with unread data or SO_LINGER 0 resets the peer; data sent to a "
@@ -45,7 +48,7 @@ ASSUMPTIONS = [
     "to connectionLost after abortConnection is not constrained by the statement",
     "a half-closeable protocol calls loseConnection() from readConnectionLost, as IHalfCloseableProtocol requires",
 ]
-MIN = {"quick": {"evaluations": 690000, "nontrivial": 660000, "outcomes": 8, "states": 1300000},
+MIN = {"quick": {"evaluations": 900000, "nontrivial": 860000, "outcomes": 9, "states": 1650000},
        "thorough": {"evaluations": 14000000, "nontrivial": 14000000, "outcomes": 8, "states": 7500000}}
 LEVEL_TEXT = ("Every script in the stated alphabet on each of the four reactors' real dispatch code and the real tcp.Connection, "
               "with every single (thorough: pair of) departure(s) of the model kernel from its default answers; relative to the "
@@ -61,6 +64,9 @@ REACTORS = ["select", "poll", "epoll", "asyncio"]
 OPS = [("w", 0), ("w", 1), ("w", 3), ("w", 5), ("w", 12), ("ws", (1, 3)), ("ws", (5, 0, 3))]
 PACING = ["burst", "step", "drain"]
 CLOSES = [(s, k) for s in "AB" for k in ("lose", "losew", "abort")]
+# two-step closes by one side; the pacing gap (none / one iteration / quiescence) separates the two calls, the second
+# call is made only if that side's protocol has not been told connectionLost yet (an application would not touch a dead transport)
+CLOSES2 = [(s, k) for s in "AB" for k in ("losew+lose", "lose+losew")]
 
 
 # ---------------------------------------------------------------------------------------------
@@ -327,7 +333,17 @@ def run_case(ch, case, base=0):
     for op in ops:
         env.write("A", op)
         gap()
-    env.close(closer, kind)
+    if "+" in kind:
+        first, second = kind.split("+")
+        env.close(closer, first)
+        gap()
+        if not env.p[closer].lost:
+            env.close(closer, second)
+            env.k.flags.add("second-close-call-made")
+        else:
+            env.k.flags.add("second-close-call-skipped")
+    else:
+        env.close(closer, kind)
     if not env.settle():
         env.quiescent = False
     env.logged = list(_LOGGED)
@@ -422,7 +438,7 @@ def patterns(maxw):
             yield tuple(OPS[i] for i in p)
 
 
-def _scripts(maxw, only_len, pacings, hcs, echos, bound):
+def _scripts(maxw, only_len, pacings, hcs, echos, bound, closes=CLOSES):
     out = []
     for ops in patterns(maxw):
         if only_len is not None and len(ops) != only_len:
@@ -431,7 +447,7 @@ def _scripts(maxw, only_len, pacings, hcs, echos, bound):
             if pacing != "burst" and not ops:
                 continue
             for hc in hcs:
-                for closer, kind in CLOSES:
+                for closer, kind in closes:
                     for echo in echos:
                         out.append((bound, hc, pacing, ops, closer, kind, echo))
     return out
@@ -444,9 +460,14 @@ def scripts(tier):
         return (_scripts(2, None, PACING, (0, 3), (0,), 2)
                 + _scripts(2, None, PACING, (1, 2), (0,), 1)
                 + _scripts(2, None, PACING, (0, 1, 2, 3), (1,), 1)
-                + _scripts(3, 3, PACING, (0, 3), (0,), 1))
+                + _scripts(3, 3, ("burst", "drain"), (0, 3), (0,), 1)
+                + _scripts(2, None, PACING, (0, 1, 2, 3), (0, 1), 1, CLOSES2)
+                + _scripts(2, None, PACING, (0, 3), (0,), 2, CLOSES2[:2])
+                + _scripts(3, 3, ("burst", "drain"), (0, 3), (0,), 1, CLOSES2[:2]))
     return (_scripts(3, None, PACING, (0, 1, 2, 3), (0, 1), 2)
-            + _scripts(2, None, PACING, (0, 3), (0,), 3))
+            + _scripts(2, None, PACING, (0, 3), (0,), 3)
+            + _scripts(2, None, PACING, (0, 1, 2, 3), (0, 1), 2, CLOSES2)
+            + _scripts(3, 3, PACING, (0, 1, 2, 3), (0, 1), 1, CLOSES2))
 
 
 NSLICES = {"quick": 12, "thorough": 40}
